@@ -32,7 +32,7 @@ Why the existing tests cannot settle it: {p['why_tests_cant']}
 
 Files the property is anchored in: {', '.join(p['anchors']['files'])}
 
-Focus for your change: other people have already seeded the changes listed below for this property; yours must be a DIFFERENT idea (different mechanism, different clause of the statement, or a different part of the API surface that the statement covers). First list the exported functions/methods of the anchored files and prefer one that none of the earlier ideas below touches. This round, aim at UNUSUAL BUT LEGAL USE that the statement's quantifier still covers and that a test author would not think of: the same object passed or registered twice (aliasing), a caller-owned slice/map/pointer mutated or reused after the call, pointer identity versus deep equality, values that look like 'absent' (0, "", nil inside an interface, empty slice versus nil slice, typed nil), extreme but valid sizes and durations (0, 1, negative, MaxInt, MaxInt64 nanoseconds), keys/strings with unusual characters, a callback that calls back into the same object (re-entrancy: closes it, resubscribes, posts to itself, reads a getter), an object used through two different wrappers or interfaces at once, the generic instantiation with an interface, pointer or struct element type instead of int. The change itself should look like an ordinary optimisation, clean-up or hardening, and go wrong only for such a use. Make sure the change really contradicts the statement as written (quote the clause it breaks in your NOTES.md) and is not merely a behaviour change the statement does not talk about. Prefer bugs that need a rare combination: a particular interleaving AND a particular configuration, two edits that are each harmless alone, or state that only goes wrong on the second/third use of the same object. Also consider code the anchored files DEPEND on (helpers in other files of the library that the anchored code calls), constructor variants, getters/setters and zero/negative/huge parameter values that the earlier ideas did not touch; setters or configuration changed while the object is in use; one object, option value or caller-owned slice/map reused across several calls; error, timeout, cancellation and already-closed paths; nil callbacks.
+Focus for your change: other people have already seeded the changes listed below for this property; yours must be a DIFFERENT idea (different mechanism, different clause of the statement, or a different part of the API surface that the statement covers). First list the exported functions/methods of the anchored files and prefer one that none of the earlier ideas below touches. This round, aim at EXCEPTION SAFETY and ERROR PATHS: a user-supplied callback (effect, OnNext, f, interceptor, job, serializer, pattern effect, posted function) panics or returns an error, the caller recovers / handles it, and then the SAME object is used again - a lock left held, a counter or flag not restored, a list half-updated, a goroutine that died and is never replaced, a channel left full, an entry left registered. Also: errors returned by a wrapped/inner structure or a collaborator passed in by the caller (a full or closed inner queue, a failing reader, a transport error) in the middle of a multi-step operation. The change itself should look like an ordinary refactoring (defer replaced by explicit unlock, state updated before instead of after the callback, early return added) and must leave the success path untouched. Make sure the change really contradicts the statement as written (quote the clause it breaks in your NOTES.md) and is not merely a behaviour change the statement does not talk about. Prefer bugs that need a rare combination: a particular interleaving AND a particular configuration, two edits that are each harmless alone, or state that only goes wrong on the second/third use of the same object. Also consider code the anchored files DEPEND on (helpers in other files of the library that the anchored code calls), constructor variants, getters/setters and zero/negative/huge parameter values that the earlier ideas did not touch; setters or configuration changed while the object is in use; one object, option value or caller-owned slice/map reused across several calls; error, timeout, cancellation and already-closed paths; nil callbacks.
 {ex}
 """)
 print("prepared", len(claimed), "worktrees with suffix", suffix)
